@@ -1483,9 +1483,13 @@ class Converter:
 
     def _translate_nested_function_def(self, fn: ast.FunctionDef) -> None:
         """Translate a nested function definition."""
+        # The signature of the nested function sets self.returntype: keep the enclosing
+        # function's declared return types for its own return statement.
+        outer_returntype = self.returntype
         self._enter_scope(fn.name, fn)
         self._translate_function_def_common(fn)
         function_ir = self._exit_scope()
+        self.returntype = outer_returntype
         outer_scope_vars = self.analyzer.outer_scope_variables(fn)
         function_ir.outer_scope_variables = [
             (var, self._lookup(var, self._source_of(fn))) for var in outer_scope_vars
